@@ -133,7 +133,7 @@ def _impl_segment(inp):
         side["duplicate_ids"] = True
     if any(x.recording is not clip.recording and x.recording != clip.recording for x in segs):
         side["other_recording"] = True
-    if not all(_fmt_ok(t) for x in segs for t in (x.start_time, x.end_time)):
+    if ":" in str(clip.uuid) or not all(_fmt_ok(t) for x in segs for t in (x.start_time, x.end_time)):
         side["fmt_contract"] = True
     for x in segs:
         if not isinstance(uuid_namespace, _uuid.UUID):
